@@ -121,6 +121,12 @@ type Link struct {
 	sendIdx   int
 	blackhole bool
 	blockSend bool
+	// blockConnScoped: a blocked send is released only when the context of
+	// the connection ends (the context of the latest Send call that carried
+	// no deadline), not when the context of the call itself does - the
+	// behaviour of a stream write of the mailbox transports.
+	blockConnScoped bool
+	connCtx         context.Context
 	failSends int
 	failSkip  int
 
@@ -242,6 +248,14 @@ func (l *Link) jitterLocked() time.Duration {
 }
 
 // SetBlockSend makes Send block until its context is cancelled.
+// SetBlockConnScoped makes blocked sends (SetBlockSend) wait for the end of
+// the connection's context instead of the context of the call.
+func (l *Link) SetBlockConnScoped(on bool) {
+	l.mu.Lock()
+	l.blockConnScoped = on
+	l.mu.Unlock()
+}
+
 func (l *Link) SetBlockSend(on bool) {
 	l.mu.Lock()
 	l.blockSend = on
@@ -295,10 +309,17 @@ func (l *Link) Send(ctx context.Context, b []byte) error {
 		l.mu.Unlock()
 		return ErrLinkClosed
 	}
+	if _, has := ctx.Deadline(); !has {
+		l.connCtx = ctx
+	}
 	if l.blockSend {
+		wait := ctx
+		if l.blockConnScoped && l.connCtx != nil {
+			wait = l.connCtx
+		}
 		l.mu.Unlock()
-		<-ctx.Done()
-		return ctx.Err()
+		<-wait.Done()
+		return wait.Err()
 	}
 	if l.failSends > 0 && l.failSkip > 0 {
 		l.failSkip--
